@@ -56,18 +56,18 @@ package metadata
 
 //@ func GetParamPassedIn props C06,C10,C14
 //@ ensures nilholder: implies(paramAnnotations == nil, result1 != nil)
-//@ ensures sound: implies(result1 == nil, forall(k, 0, len(paramAnnotations.attributes), implies(annotations.isFirstByValue(*paramAnnotations, paramName, k), isParamKind(strings.ToLower(paramAnnotations.attributes[k].Name)) && result0 == passedInOf(strings.ToLower(paramAnnotations.attributes[k].Name)))))
-//@ ensures complete: implies(paramAnnotations != nil && exists(k, 0, len(paramAnnotations.attributes), annotations.isFirstByValue(*paramAnnotations, paramName, k) && isParamKind(strings.ToLower(paramAnnotations.attributes[k].Name))), result1 == nil)
-//@ ensures missing: implies(paramAnnotations != nil && forall(k, 0, len(paramAnnotations.attributes), paramAnnotations.attributes[k].Value != paramName), result1 != nil)
+//@ ensures sound: implies(result1 == nil, forall(k, 0, len(paramAnnotations.attributes), implies(annotations.isFirstParamAnn(*paramAnnotations, paramName, k), result0 == passedInOf(strings.ToLower(paramAnnotations.attributes[k].Name)))))
+//@ ensures complete: implies(paramAnnotations != nil && annotations.hasParamAnn(*paramAnnotations, paramName), result1 == nil)
+//@ ensures missing: implies(paramAnnotations != nil && !annotations.hasParamAnn(*paramAnnotations, paramName), result1 != nil)
 
 //@ func GetParameterSchemaName props C06,C14
 //@ requires paramAnnotations != nil
-//@ ensures missing: implies(forall(k, 0, len(paramAnnotations.attributes), paramAnnotations.attributes[k].Value != paramName), result1 != nil)
+//@ ensures missing: implies(!annotations.hasParamAnn(*paramAnnotations, paramName), result1 != nil)
 //@ ensures nonempty: implies(result1 == nil && paramName != "", result0 != "")
 
 //@ func GetParamValidator props C06,C14
 //@ requires paramAnnotations != nil
-//@ ensures missing: implies(forall(k, 0, len(paramAnnotations.attributes), paramAnnotations.attributes[k].Value != paramName), result1 != nil)
+//@ ensures missing: implies(!annotations.hasParamAnn(*paramAnnotations, paramName), result1 != nil)
 //@ ensures req: implies(result1 == nil && !optionalParam(isPointerParam, passedIn), swagtool.hasRequired(result0))
 
 //@ func GetResponseStatusCodeAndDescription props C06,C14
